@@ -219,6 +219,84 @@ def check_model(chk: harness.Check, name: str, text: str) -> None:
     )
 
 
+def lattice_model(rng) -> str:
+    """
+    A layered hierarchy in which classes of one layer inherit random subsets of the layer
+    above, so that an ancestor is reached over many, unevenly shared paths (overlapping
+    diamonds); every class declares one property and one invariant and calls all its
+    super constructors.
+    """
+    layers = []
+    names = iter(f"Node_{chr(ord('a') + i)}{j}" for i in range(26) for j in range(1))
+    n_layers = rng.choice([3, 3, 4])
+    all_classes = []  # (name, bases, abstract)
+    for depth in range(n_layers):
+        width = rng.choice([1, 2, 3]) if depth == 0 else rng.choice([2, 3, 4])
+        layer = []
+        for _ in range(width):
+            name = next(names)
+            bases = []
+            if depth > 0:
+                pool = layers[depth - 1] + (layers[depth - 2] if depth > 1 and rng.random() < 0.3 else [])
+                k = rng.randint(1, min(3, len(pool)))
+                bases = rng.sample(pool, k)
+            layer.append(name)
+            all_classes.append((name, bases, depth < n_layers - 1 and rng.random() < 0.6))
+        layers.append(layer)
+
+    by_name = {name: bases for name, bases, _ in all_classes}
+
+    def ancestors(name, seen=None):
+        result = []
+        for base in by_name[name]:
+            for anc in ancestors(base) + [base]:
+                if anc not in result:
+                    result.append(anc)
+        return result
+
+    def mro_ok(bases):
+        made = {}
+
+        def make(n):
+            if n not in made:
+                made[n] = type(n, tuple(make(b) for b in by_name[n]) or (object,), {})
+            return made[n]
+
+        try:
+            type("Probe", tuple(make(b) for b in bases), {})
+            return True
+        except TypeError:
+            return False
+
+    out = []
+    for name, bases, abstract in all_classes:
+        # drop bases that are ancestors of other bases (Python MRO) and check linearisation
+        bases = [b for b in bases if not any(b in ancestors(o) for o in bases if o != b)]
+        while not mro_ok(bases) and len(bases) > 1:
+            bases = bases[:-1]
+        by_name[name] = bases
+        prop = f"prop_{name.lower()}"
+        props = [f"prop_{a.lower()}" for a in ancestors(name)] + [prop]
+        if abstract:
+            out.append("@abstract")
+        if not bases and rng.random() < 0.5:
+            out.append("@serialization(with_model_type=True)")
+        out.append(f'@invariant(lambda self: len(self.{prop}) > 0, "The {prop} must not be empty.")')
+        out.append(f"class {name}({', '.join(bases + ['DBC'])}):")
+        out.append(f"    {prop}: str")
+        out.append("")
+        out.append("    def __init__(self, " + ", ".join(f"{p}: str" for p in props) + ") -> None:")
+        for base in bases:
+            bprops = [f"prop_{a.lower()}" for a in ancestors(base)] + [f"prop_{base.lower()}"]
+            out.append(f"        {base}.__init__(self, " + ", ".join(f"{p}={p}" for p in bprops) + ")")
+        out.append(f"        self.{prop} = {prop}")
+        out.append("")
+        out.append("")
+    out.append('__version__ = "V0.1"')
+    out.append('__xml_namespace__ = "https://dummy.com/lattice"')
+    return "\n".join(out) + "\n"
+
+
 def hierarchy_profile(i: int) -> mmgen.Profile:
     return mmgen.Profile(
         n_classes=(3, 12),
@@ -249,6 +327,8 @@ def worker(args) -> Dict[str, Any]:
             if k in ("diamond", "multiple-inheritance", "cprim-chain", "model-type-forced"):
                 chk.hist("mmg_features", k, v)
         models.append((f"mmg/{chk.seed}/{i}", m.text))
+        if i % 2 == 0:
+            models.append((f"lattice/{chk.seed}/{i}", lattice_model(chk.rng("lattice", i))))
     for idx, (name, text) in enumerate(models):
         if chk.should_stop(budget):
             chk.count("models_skipped_for_budget", len(models) - idx)
